@@ -1059,3 +1059,9 @@ mod poker_card_tests {
         // let paired = 0b10010000000000001000110000101001
     }
 }
+
+/// Read-only access to the private lookup tables for the verification harness.
+#[cfg(contractbridge_ckc_rs_verif)]
+pub mod verif_hooks {
+    pub use crate::lookups::{FLUSHES, PRODUCTS, UNIQUE_5, VALUES};
+}
